@@ -8,3 +8,5 @@ for c in "$@"; do
 done
 git -C /repo checkout -- . 
 git -C /repo status --short | head -3
+# leave the regenerated modules in the state of the unchanged tree
+/verif/build/bin/go2lean /repo /verif/lean/GitSizer/Gen >/dev/null 2>&1; /verif/build/bin/gofacts /repo /verif/lean/GitSizer/Gen >/dev/null 2>&1
